@@ -17,6 +17,16 @@ CLAIMED = {
              "argfind and preserve_shape rest on the end-to-end oracle comparison alone (sampled, not proved). Only numpy backends can run here.",
         technique="Lean 4 proof (validator soundness) + per-call translation validation of real traced graphs + oracle differential",
         design="5 (C01), 4 (M3, M5)"),
+    "C02": dict(
+        text="Lean theorems about a reference solver over unbounded Nat: unit propagation derives only forced values (propagate_forced), verdict none means no solution, "
+             "verdict unique means the answer satisfies the system and every solution equals it, fuel sufficiency, checker iff Sat; the same for the rank level "
+             "(ellipsis repetition counts, width polynomials) and the two-level solver against the specification Sols (solveAll_sound, checkAll_iff). "
+             "On every run einx's solve_axes/solve_shapes/matches and the shapes of id/sum results are compared with the proved solver and with an independent brute-force "
+             "Python enumerator on generated, mutated and 2**31..2**64 inputs under the three obligations the property states.",
+        note="Trusted: Lean kernel, driver, harness, Python brute-force oracle; expression trees come from einx's own stage-1 parser (front-trusted; parser is C12). sympy and CSE are not "
+             "modelled: their effect is observed behaviourally. Success is demanded only where unit propagation suffices.",
+        technique="Lean 4 proof over reference solver + differential correspondence with brute-force oracle",
+        design="5 (C02)"),
     "C11": dict(
         text="Lean theorems about the model of BackendRegistryState (precedence chain, get = pure specGet in every quiet state with a sound memo, "
              "lookups do not influence later lookups, register clears the memo [obligation regenerated from the AST], failing factories isolated, real priorities) "
